@@ -43,12 +43,12 @@ CHECKS = {
         "and exchange uniforms enter the float instance as observed tables (the transitions are C02/C04/C06's subject).",
    technique="Coq proof (diamond/Kahn determinacy, canonical-run construction by induction over proposals and rows, exchange algebra) + controlled-scheduler co-execution", ref="5/C12"),
  "C20": dict(
-   text="Three theorems: with exchange disabled the per-chain loop of the parallel controller IS the sequential loop (induction over the event stream, any sampler / "
-        "thinning); chain i receives element i of per-chain initial models / kwargs, or the shared one, or none. Tie: real multiprocess ParallelSampleSMP runs (1-4 chains, "
+   text="Four theorems: with exchange disabled the per-chain loop of the parallel controller IS the sequential loop (induction over the event stream, any sampler / "
+        "thinning); chain i receives element i of per-chain initial models / kwargs, or the shared one, or none; for every interleaving of chain processes that do not communicate (any number of chains and proposals) no chain waits, the number of steps is bounded by the proposals in total and a run that cannot be continued has left in every chain the state it reaches alone (invariant over the network model of C12). Tie: real multiprocess ParallelSampleSMP runs (1-4 chains, "
         "HMC/RWMH mixes, per-chain/shared/no kwargs and initial models) compared bitwise, chain by chain, with stand-alone runs of deep copies taken before; attribute "
         "and RNG-state snapshots of the handed-in samplers, results files of earlier runs, reuse afterwards.",
    note="Trusted: Coq kernel; harness; fork/pickling of multiprocess; OS scheduling is not controlled (without exchange the chains do not communicate).",
-   technique="Coq proof (loop equality, routing) + differential multiprocess runs", ref="5/C20"),
+   technique="Coq proof (loop equality, routing, schedule independence of non-communicating chains) + differential multiprocess runs", ref="5/C20"),
  "C18": dict(
    text="Five theorems over the layered ray model (any number of layers, interfaces, velocities, offsets, ray parameters): sin/velocity equals the ray parameter in "
         "every segment; every segment goes down and towards (never beyond) the receiver line; travel time = sum len/velocity and length = sum len; in a homogeneous "
@@ -181,7 +181,7 @@ CHECKS = {
    note="Trusted: Coq kernel, stdlib real axioms; harness; Python float power for the schedule weight (tabulated with the same expression).",
    technique="Coq proof (real analysis of the update, run invariant) + bit-exact co-execution", ref="5/C16"),
  "C19": dict(
-   text="Five theorems (last entry, misfit-of-model, step equation, never-non-finite, monotone) proved in Coq for every "
+   text="Seven theorems (last entry, misfit-of-model, step equation, never-non-finite, monotone; and, beyond the property text, one length between 1 and iterations+1 for both histories and exactness of the guards: a run is shorter than iterations+1 only when the step after the returned model was refused) proved in Coq for every "
         "arithmetic instance, target, start, step, iteration count and flag, by an invariant of the loop; the hand-written "
         "model is tied to hmclab.Optimizers.gradient_descent on every run by bit-exact co-execution (binary64 PrimFloat) on "
         "hash-function targets with NaN/inf palettes, and the property statement itself is re-evaluated on the implementation's output.",
